@@ -55,6 +55,7 @@ type callRes struct {
 	qBefore, qAfter []entry
 	qAfterPresent  bool
 	served         []uint64
+	w0, nw         int // datastore writes before the call, and made by it
 }
 
 func newNode(d *daD, start, drift uint64, image map[string][]byte) (*node, error) {
@@ -154,6 +155,29 @@ func showWrites(log []hx.WriteSet) string {
 	return strings.Join(parts, ",")
 }
 
+// writeNames names the durable writes of one call by what they save: the first save of the queue is the pop
+// (PopUpToMaxBytes), a later one the push-back (Push); the Put of the scan position.
+func writeNames(log []hx.WriteSet) []string {
+	var out []string
+	seenP := false
+	for _, ws := range log {
+		for _, w := range ws {
+			switch {
+			case !w.Del && w.Key == keyPending && !seenP:
+				seenP = true
+				out = append(out, "pop-save")
+			case !w.Del && w.Key == keyPending:
+				out = append(out, "pushback-save")
+			case !w.Del && w.Key == keyScan:
+				out = append(out, "scan-position-save")
+			default:
+				out = append(out, "other-write")
+			}
+		}
+	}
+	return out
+}
+
 // call performs one GetNextBatch on the real sequencer of n. echo==nil: the caller's stored
 // lastBatchData (what block.Manager.retrieveBatch sends); otherwise the explicit list.
 func (s *scen) call(n *node, max uint64, echo *[][]byte, badID bool) (r *callRes) {
@@ -195,6 +219,7 @@ func (s *scen) call(n *node, max uint64, echo *[][]byte, badID bool) (r *callRes
 	}()
 	n.ds.Sync(context.Background(), ds.NewKey("/"))
 	r.writes = showWrites(n.ds.Log[w0:])
+	r.w0, r.nw = w0, len(n.ds.Log)-w0
 	img = n.ds.Image()
 	r.posAfter = readPos(img)
 	r.qAfter, r.qAfterPresent = readQueue(img)
@@ -319,6 +344,59 @@ func run(c *hx.Ctx) {
 			} else {
 				c.Emit("%s %s", r.kind, t)
 			}
+		case "crash-next":
+			// the REAL call runs on the logging datastore and dies when its first `at` durable writes are on
+			// disk: the answer is never delivered (the caller keeps its lastBatchData), and a new sequencer
+			// is built on the image after exactly those writes.
+			max, ok1 := op.U64("max")
+			at, ok2 := op.U64("at")
+			if !ok1 || !ok2 {
+				c.Emit("bad-op")
+				continue
+			}
+			var echo *[][]byte
+			if op.Has("echo") {
+				l := [][]byte{}
+				if e := op.Str("echo"); e != "none" {
+					x, err := hx.UnHexList(e)
+					if err != nil {
+						c.Emit("bad-op")
+						continue
+					}
+					l = x
+				}
+				echo = &l
+			}
+			badID := op.Bool("badid")
+			last := s.a.last
+			r := s.call(s.a, max, echo, badID)
+			k := r.nw
+			if at < uint64(k) {
+				k = int(at)
+			}
+			names := writeNames(s.a.ds.Log[r.w0 : r.w0+r.nw])
+			img := s.a.ds.ImageAt(r.w0 + k)
+			a, err1 := newNode(s.da, s.start, s.drift, img)
+			b, err2 := newNode(s.da, s.start, s.drift, img)
+			if err1 != nil || err2 != nil {
+				c.Report("C20/restart/cannot-restart", "after a crash inside GetNextBatch the sequencer does not start")
+				c.Emit("err:restart")
+				continue
+			}
+			a.last, b.last = last, last
+			s.a, s.b = a, b
+			s.m.restarts++
+			if r.kind == "panic" {
+				c.Report("C20/panic/get-next-batch", "GetNextBatch panicked")
+			}
+			s.m.afterCrash(c, s, r, k, names, img, echo == nil && !badID)
+			c.Hit(fmt.Sprintf("crash:at-%d-of-%d", k, r.nw))
+			und := r.kind
+			if r.kind == "batch" {
+				und = "und=" + hx.HexList(r.ids)
+			}
+			q, _ := readQueue(img)
+			c.Emit("crash k=%d %s pos=%s q=%s w=%s", k, und, showPos(readPos(img)), showQ(q, true), r.writes)
 		case "restart":
 			img := s.a.ds.Image()
 			n, err := newNode(s.da, s.start, s.drift, img)
